@@ -32,7 +32,7 @@ MC_CFGS = {
     "thorough": (("rt_mc1.cfg", False), ("rt_mc_x.cfg", False), ("rt_mc_t.cfg", False), ("rt_coded.cfg", True)),
 }
 UNITS = ["setUp", "body", "tearDown", "c1", "c2", "c3"]
-BASES = ["traceback", "Failed expectation", "foo", "fxd", "diff", "reason"]
+BASES = ["traceback", "Failed expectation", "foo", "fxd", "diff", "reason", "hx"]
 
 
 def normalise_prog(p):
@@ -70,6 +70,8 @@ def parse_details(snap, env):
             cids.append(m.group(1))
             e = re.search(r"epoch=(\d+)", text)
             epoch = int(e.group(1)) if e else -1
+        if re.match(r"^hx:[A-Za-z0-9_:]+:\d+$", text):
+            cids.append(text)
         if re.match(r"^(mm|fx):[a-z0-9_]+:[A-Za-z ]+(-\d+)?$", text):
             cids.append(text)
         for m in re.finditer(r"fe:(m\d)", text):
